@@ -86,8 +86,8 @@ Definition init_st : st :=
 Definition upd {A} (m : key -> A) (k : key) (v : A) : key -> A := fun x => if N.eqb x k then v else m x.
 Definition memN (k : N) (l : list N) : bool := existsb (N.eqb k) l.
 Fixpoint nodupN (l : list N) : list N :=
-  match l with [] => [] | x :: r => if memN x r then nodupN r else x :: nodupN r end.
-(* Python's set keeps one copy; order of removals is irrelevant (see Proofs) — we keep last occurrences *)
+  match l with [] => [] | x :: r => x :: filter (fun y => negb (N.eqb y x)) (nodupN r) end.
+(* first occurrences, in order: `if srv_name in self.trigger_service: continue` skips the later ones *)
 
 Definition cmpN (c : cmpop) (a b : N) : bool :=
   match c with
